@@ -79,8 +79,12 @@ def idxOf (names : List String) (n : String) : Nat := names.findIdx (· == n)
 
 /-! ### (a) the Go descriptor -/
 
-/-- identifier of the Go dictionary type (model: only the empty dictionary is in scope, C05 owns the rest) -/
-def dictId (n : Nat) : String := "HashmapE" ++ toString n
+/-- the Go key type of a dictionary with `n`-bit keys (tlb/parser mapBitsSizeToType): tlb.UintN up to 64 bits, tlb.BitsN
+above -/
+def dictKeyTy (n : Nat) : Ty := if n ≤ 64 then .uint n else .bytes (n / 8)
+
+/-- the schema type of an `n`-bit dictionary key, as the Go key type holds it -/
+def dictKeySpec (n : Nat) : SType := if n ≤ 64 then .nat n else .bits n
 
 /-- type in inline position (a Go type without a struct tag) -/
 def goTyI (names : List String) : TExpr → Ty
@@ -97,7 +101,7 @@ def goTyI (names : List String) : TExpr → Ty
   | .ref t => .refT (goTyI names t)
   | .maybe t => .maybe (goTyI names t)
   | .either l r => if r = .ref l then .eitherRef (goTyI names l) else .either (goTyI names l) (goTyI names r)
-  | .hashmapE n _ => .dictE (dictId n)
+  | .hashmapE n v => .dictE (dictKeyTy n) (goTyI names v)
 
 /-- does the Go type of the expression have a value-receiver `MarshalTLB` (so that a pointer to it is a marshaler)?
 Go's own integer kinds, `bool`, the byte arrays `tlb.BitsN` and generated structs have none; the other types of package
@@ -155,7 +159,7 @@ def specI : TExpr → SType
   | .ref t => .ref (specI t)
   | .maybe t => .maybe (specI t)
   | .either l r => .either (specI l) (specI r)
-  | .hashmapE _ _ => .hashmapE
+  | .hashmapE n v => .hashmapE n (dictKeySpec n) (specI v)
 
 def specFields : List TField → SFields
   | [] => .nil
@@ -189,7 +193,7 @@ def exprOkI (names : List String) (cur : Nat) : TExpr → Bool
   | .ref t => exprOkI names cur t
   | .maybe _ => false                       -- the generator supports Maybe on struct fields only
   | .either l r => exprOkI names cur l && exprOkI names cur r
-  | .hashmapE _ _ => true
+  | .hashmapE n v => (n ≤ 64 || n % 8 == 0) && exprOkI names cur v
 
 def fieldOk (names : List String) (cur : Nat) : TExpr → Bool
   | .ref t => exprOkI names cur t
